@@ -151,6 +151,7 @@ class _Lock:
 TRANSLATORS = {
     "translate_dekad.py": ["Hdc.Gen.Dekad"],
     "summarise_effects.py": ["Hdc.Gen.Effects"],
+    "summarise_types.py": ["Hdc.Gen.Types"],   # Numba's inferred types / NumPy's loop table of every compiled kernel (C13; ~30 s)
     "translate_ws2d.py": ["Hdc.Gen.Ws2d", "Hdc.Gen.SafeWs2d"],
     "py2lean.py": [],          # per-kernel outputs: failures are reported as `FAILED <module>: reason`
     "py2lean_num.py": [],
@@ -162,12 +163,16 @@ TRANSLATORS = {
 }
 
 
-def regenerate():
+def regenerate(needed=None):
     """Regenerate Hdc/Gen/* from /repo's working tree (translators).  Returns (failed, log): failed maps a generated module whose
-    translation failed (its file on disk is stale) to the reason.  A property is affected only if its theorem modules import it."""
+    translation failed (its file on disk is stale) to the reason.  A property is affected only if its theorem modules import it.
+    `needed`: the generated modules in the import closure of the property being checked - a translator with declared outputs none
+    of which is needed is not run (the slow ones: the Numba type summariser is needed by C13 only)."""
     failed, log = {}, ""
     for name, outs in TRANSLATORS.items():
         tr = ROOT / "harness" / name
+        if needed is not None and outs and not (set(outs) & set(needed)):
+            continue
         if tr.exists():
             r = subprocess.run([sys.executable, str(tr)], capture_output=True, text=True)
             out = r.stdout + r.stderr
@@ -222,7 +227,7 @@ def prove(pid: str, thorough=False) -> dict:
     if not thms:
         return res
     with _Lock():
-        failed, glog = regenerate()
+        failed, glog = regenerate(needed=gen_closure(mods))
         hit = sorted(gen_closure(mods) & set(failed))
         if any(k.startswith("Hdc.Gen.?") for k in failed):       # a translator without a declared output failed: be conservative
             hit = hit or sorted(failed)
@@ -242,7 +247,7 @@ def prove(pid: str, thorough=False) -> dict:
             txt = p.read_text()
             txt = re.sub(r"/-.*?-/", "", txt, flags=re.S)
             for ln in txt.split("\n"):
-                code = ln.split("--")[0]
+                code = re.sub(r'"(?:[^"\\]|\\.)*"', '""', ln.split("--")[0])      # string literals are not code
                 if FORBIDDEN.search(code):
                     bad.append(f"{p.relative_to(LEAN)}: {ln.strip()[:80]}")
         audit = LEAN / ".lake" / f"audit_{pid}.lean"
